@@ -43,6 +43,46 @@ def record(wd):
     return d, sorted(glob.glob(os.path.join(d, "mac.*.ndjson")))
 
 
+def coverage(traces):
+    """what the recording contains, by class (counted from the trace files, not from the specification)"""
+    c = {"group_frames_accepted_while_listening": 0, "group_frames_ignored_while_listening": 0, "group_expired_reported": 0,
+         "group_frames_heard_in_rx1_rx2": 0, "group_frames_heard_between_windows": 0,
+         "setup_downlinks_in_windows": 0, "setup_downlinks_while_listening": 0, "handler_uplinks_fport200": 0,
+         "new_group_reported": 0, "payloads_taken": 0}
+    for t in traces:
+        for e in core.read_events(t):
+            calls = e.get("calls", [])
+            if e["ev"] == "a_rxc":
+                heard = [x for x in calls if x.get("out") == "frame"]
+                r = e.get("resp", {})
+                for x in heard:
+                    if x.get("intent", "").startswith("mc:setup"):
+                        c["setup_downlinks_while_listening"] += 1
+                if heard and not heard[0].get("intent", "").startswith("mc:setup"):
+                    if r.get("mk") == "received":
+                        c["group_frames_accepted_while_listening"] += 1
+                    elif r.get("mk") == "expired":
+                        c["group_expired_reported"] += 1
+                    elif r.get("k") == "Pending":
+                        c["group_frames_ignored_while_listening"] += 1
+            elif e["ev"] == "a_proc":
+                for x in calls:
+                    if x.get("out") == "frame" and x.get("intent", "").startswith("mc:setup"):
+                        c["setup_downlinks_in_windows"] += 1
+                    if x.get("out") == "frame" and x.get("intent", "").startswith("mc:data"):
+                        c["group_frames_heard_in_rx1_rx2" if x.get("c") == "rx_single" else "group_frames_heard_between_windows"] += 1
+            if e["ev"] in ("a_rxc", "a_proc"):
+                if e.get("resp", {}).get("mk") == "new":
+                    c["new_group_reported"] += 1
+                for x in calls:
+                    b = x.get("bytes") or []
+                    if x.get("c") == "tx" and len(b) > 9 and (b[5] & 0x0f) == 0 and b[8] == 200:
+                        c["handler_uplinks_fport200"] += 1
+            if e["ev"] == "take_dl":
+                c["payloads_taken"] += len(e.get("got", []))
+    return c
+
+
 def _report(rep, pid, res, mine, what):
     """mine(name) -> does the violated clause belong to this property's reading"""
     nviol = 0
@@ -102,9 +142,14 @@ def extra(pid):
                     "a group heard in RX1, RX2, before RX1 and between the windows of an uplink) and seeded random walks over the table (set up / replace "
                     "/ delete / status / version requests via RX1, RX2 and Class C listening, frames of live, deleted and replaced groups with next, later, "
                     "repeated, earlier, minimum and maximum counters)")
+        cov = coverage(traces)
+        # vacuity guard: every class of observation the readings rest on must occur in the recording
+        empty = [k for k, v in cov.items() if v == 0]
+        if empty:
+            raise core.ToolError(f"multicast recording is vacuous for {empty} (the recorder no longer produces these observations)")
         return {"_states": sum(r["distinct"] for r in res), "_transitions": sum(r["generated"] for r in res),
                 "_evaluations": n, "_distinct": frames,
-                "multicast_build": {"module": module, "histories": hist, "events": n, "frames_heard": frames, "rule": rule}}
+                "multicast_build": {"module": module, "histories": hist, "events": n, "frames_heard": frames, "observations": cov, "rule": rule}}
     return fn
 
 
